@@ -11,6 +11,7 @@ import (
 	"github.com/crate-crypto/go-ipa/banderwagon"
 	"github.com/crate-crypto/go-ipa/common"
 	"github.com/crate-crypto/go-ipa/ipa"
+	"github.com/crate-crypto/go-ipa/verifsim"
 )
 
 // A small vocabulary of API operations on private arguments, shared by C12
@@ -28,14 +29,14 @@ var opKinds = []string{
 	"commit", "commit", "prove", "prove", "verify", "verify", "ipa", "msm", "msm", "precomp",
 	"batchnorm", "tobytes", "decode", "mapfield", "frcodec", "frcodec", "transcript", "uncompressed", "groupops",
 	"readproof", "readproof", "readproof-short", "readpoint-short",
-	"prove-fail", "verify-malformed", "batchnorm-zero",
+	"prove-fail", "verify-malformed", "batchnorm-zero", "pipe-roundtrip", "pipe-roundtrip",
 }
 
 func genOp(r *Rng) OpSpec {
 	k := opKinds[r.Intn(len(opKinds))]
 	o := OpSpec{Kind: k, Seed: r.U64()}
 	switch k {
-	case "prove", "verify", "readproof", "readproof-short", "prove-fail", "verify-malformed":
+	case "prove", "verify", "readproof", "readproof-short", "prove-fail", "verify-malformed", "pipe-roundtrip":
 		o.Size = 1 + r.Intn(3)
 	case "msm":
 		o.Size = r.Pick([]int{1, 2, 3, 8, 20, 64, 130})
@@ -195,6 +196,29 @@ func runOp(o OpSpec) string {
 		var b2 bytes.Buffer
 		q.Write(&b2)
 		return digest(b2.Bytes(), q.Equal(*p))
+	case "pipe-roundtrip":
+		// prover node -> synchronous stream -> verifier node: one task serialises the proof into
+		// a pipe while this task deserialises it from the other end
+		label, Cs, fs, zs, ys := honestSmall(o.Seed, o.Size)
+		p, err := multiproof.CreateMultiProof(common.NewTranscript(label), cfg, Cs, fs, zs)
+		if err != nil {
+			return digest("err")
+		}
+		pipe := NewSimPipe()
+		werrCh := make(chan bool, 1)
+		verifsim.Go(siteSimPipe, func() {
+			werr := p.Write(pipe)
+			pipe.CloseWrite()
+			werrCh <- werr != nil
+		})
+		var q multiproof.MultiProof
+		rerr := q.Read(pipe)
+		wfailed := verifsim.Recv(werrCh, siteSimPipe)
+		if rerr != nil {
+			return digest("reject", wfailed)
+		}
+		ok, verr := multiproof.CheckMultiProof(common.NewTranscript(label), cfg, &q, Cs, ys, zs)
+		return digest(ok, verr != nil, wfailed, q.Equal(*p))
 	case "prove-fail", "verify-malformed":
 		// rarely taken error paths, concurrently with everything else
 		label, Cs, fs, zs, ys := honestSmall(o.Seed, o.Size)
